@@ -20,7 +20,9 @@ RULE = (
     "shuffle x grow order x farmer kind {Runner, Runner->DataFrame, "
     "Harvester, Sampler} x overwrite policy x pre-existing harvested data "
     "(identical or conflicting epoch; harvested by another session or by the "
-    "farmer itself) x an intermediate harvest of other points by another "
+    "farmer itself; or a Harvester constructed with full_ds= and no file yet) "
+    "x a first sow with other values and a look at the progress before the "
+    "real sow x an intermediate harvest of other points by another "
     "session between sow and reap x reload of the crop by name (farmer "
     "unpickled, function re-attached) before grow and/or before reap.  "
     "Oracle (differential + independent): the reaped Dataset equals, "
@@ -154,6 +156,32 @@ def run_case(case):
         ft, rt, _, _, _, _ = make(twin)
         extra = {**consts, **desc["resources"]}
 
+        def shifted(v):
+            """a value of the same family that is not swept"""
+            if isinstance(v, str):
+                return v + "_o"
+            return v + 1000
+
+        # ------- a farmer that starts from data handed to its constructor
+        # (held in memory only: there is no file yet)
+        init = None
+        if case.get("init_full") and farmer_kind == "harvester" and \
+                case["mode"] == "combos" and not case.get("pre"):
+            a0, v0 = case["args"][0]
+            init = {a: ([shifted(v[0])] if a == a0 else list(v))
+                    for a, v in case["args"]}
+            for which in ("main", "twin"):
+                ri, _, _, _, _ = build_runner(x, desc)
+                with under_test("initial dataset"):
+                    ids_ = ri.run_combos(init, verbosity=0)
+                f_old = fm if which == "main" else ft
+                f_new = x.Harvester(f_old.runner, data_name=f_old.data_name,
+                                    engine=f_old.engine, full_ds=ids_)
+                if which == "main":
+                    fm = f_new
+                else:
+                    ft = f_new
+
         # ------- inputs
         if case["mode"] == "combos":
             args = case["args"]
@@ -209,6 +237,22 @@ def run_case(case):
                                      shuffle=case["ctor_shuffle"], **bkw)
             else:
                 crop = fm.Crop(name="c6", parent_dir=main, **bkw)
+            if case.get("decoy_sow"):
+                # the crop is first sown with OTHER values, looked at, and
+                # then sown with the real ones (same amount of work)
+                if farmer_kind == "sampler":
+                    np.random.seed(case["np_seed"] + 1)
+                    crop.sow_samples(case["n"], verbosity=0)
+                elif case["mode"] == "combos":
+                    crop.sow_combos({a: [shifted(v_) for v_ in v]
+                                     for a, v in combos.items()}, verbosity=0)
+                else:
+                    crop.sow_cases(tuple(case_args),
+                                   [tuple(shifted(v_) for v_ in c)
+                                    for c in cases_in],
+                                   combos=sub_combos, verbosity=0)
+                str(crop), crop.num_results, crop.missing_results()
+                crop.is_ready_to_reap()
             if farmer_kind == "sampler":
                 np.random.seed(case["np_seed"])
                 crop.sow_samples(case["n"], verbosity=0)
@@ -412,7 +456,9 @@ def strategy(draw):
             "order": draw(st.lists(st.integers(0, 20), max_size=4)),
             "reload_before_grow": draw(st.booleans()),
             "reload_before_reap": draw(st.booleans()),
-            "dname": draw(st.sampled_from(["data.h5", "data", "res.dmp"]))}
+            "dname": draw(st.sampled_from(["data.h5", "data", "res.dmp"])),
+            "decoy_sow": draw(st.sampled_from([False, False, True])),
+            "init_full": draw(st.sampled_from([False, True]))}
     if case["dname"].endswith(".dmp"):
         case["engine"] = "joblib"
     if farmer == "sampler":
